@@ -145,4 +145,261 @@ S12Emit == Emit =>
             PrintT("@@CASE " \o ToJson([kind |-> "seq12", mk |-> c.mk, fi |-> c.fi, d0 |-> c.d0, r0 |-> c.r0,
                                         steps |-> c.hist]) \o " @@END")
       [] OTHER -> TRUE
+\* ===========================================================================
+\* Part X12: ONE INPUT OBJECT that is used, modified IN PLACE and used again
+\* ===========================================================================
+\* The parts above (and ModelGeom, part C12) hand every call a freshly built input.  A user keeps the input object:
+\*     x = CUQIarray(v, geometry=G); y1 = model(x); x *= 2; y2 = model(x)
+\* "The value of an array argument is its content at call time" - whatever happened to the object before: it was
+\* converted (x.funvals / x.parameters read), a model was applied to it, and then its buffer was changed by any of the
+\* in-place routes numpy offers (augmented assignment, ufunc out=, setitem, fill, sort, put, copyto, place, putmask,
+\* flat[i] = v, ...) or through a VIEW of the same buffer (x.view(), x.view(np.ndarray), np.asarray(x), x.to_numpy(),
+\* the array it was constructed from, x[:]).  This part is a state machine over one such object:
+\*     rep      which representation of C12 the object is: CUQIarray of parameters / of function values (carrying the
+\*              model's domain geometry), plain ndarray of parameters / of function values, Samples of parameters / of
+\*              function values
+\*     cols     its CONTENT now: the exact vector (one column; two for Samples) - every action transforms it exactly
+\*     cache    what an implementation that keeps a conversion on the INPUT OBJECT would hold: the content at the first
+\*              converting Use (<<>> = nothing kept; emptied by a setitem on the object itself)
+\*     memo     what an implementation that keeps (input object -> output) in the MODEL would hold
+\*     bound    (Samples) the array the object was constructed from is still the one it holds (s.samples = V rebinds)
+\* Actions (strictly alternating, a behaviour starts and ends with a Use):
+\*     Use(kind)              kind in funvals | parameters | fwd (model(x) / model.forward(x)) | grad (model.gradient(d, x))
+\*     EditInPlace(op)        one of the in-place routes, applied to the object itself               (via = "x" / "attr")
+\*     EditThroughView(via, op)   the same through a view of its buffer
+\* INTENDED design: every Use answers with the exact value Val(kind, content NOW) (X12SeesCurrent) and leaves the content
+\* alone (X12UseKeepsContent).  Named deviations:
+\*   FunvalsCachedAcrossInPlaceEdit   the function values of a CUQIarray of parameters are kept on the array at the first
+\*                        Use and dropped only by a setitem on the array itself (or a new geometry)
+\*   ModelMemoByInputIdentity         the model remembers the output it computed for an input OBJECT
+\*   UseConvertsInPlace               forward writes the function values into the caller's buffer
+\* Only edits whose result is exactly representable (integers, halves, quarters) are enabled; x **= 2 only on small entries.
+\* The NUMBERS: a step records the content after the action and the content `basis` the answer is computed from; the run
+\* emits Val for every distinct (configuration, parameter- / function-typed, column) once (states "X12val").
+CONSTANT X12Mode        \* "quick" | "full" | "wide" | "deep"   (lattice of this part; the other parts ignore it)
+
+X12D(kind) == CASE kind = "step"     -> Geo("step", 6, StepK(6, FALSE), 1, 6, "mean", StepAsg(6, FALSE))
+                [] kind = "stepbal"  -> Geo("step", 6, StepK(6, TRUE), 1, 6, "mean", StepAsg(6, TRUE))
+                [] kind = "linexp"   -> Geo("linexp", 6, LinK(6), 1, 6, "", <<>>)
+                [] kind = "ugradlin" -> Geo("ugradlin", 6, 3, 1, 6, "", <<>>)
+                [] kind \in {"imgC", "imgF", "cont2d"} -> Geo(kind, 6, 6, 2, 3, "", <<>>)
+                [] OTHER             -> Geo(kind, 6, 6, 1, 6, "", <<>>)
+X12R(kind) == CASE kind = "step"     -> Geo("step", 4, StepK(4, FALSE), 1, 4, "mean", StepAsg(4, FALSE))
+                [] kind = "imgC"     -> Geo("imgC", 4, 4, 2, 2, "", <<>>)
+                [] OTHER             -> Geo(kind, 4, 4, 1, 4, "", <<>>)
+
+X12IsPar(rep)     == rep \in {"arr_par", "nd_par", "samples"}
+X12IsSamples(rep) == rep \in {"samples", "samples_fun"}
+X12IsArr(rep)     == rep \in {"arr_par", "arr_fun"}
+X12AllReps(k) == {"arr_par", "arr_fun", "nd_par", "nd_fun", "samples"} \cup (IF VecFun(k.dg) THEN {"samples_fun"} ELSE {})
+X12Kinds(rep) == CASE X12IsArr(rep)        -> {"funvals", "parameters", "fwd", "grad"}
+                   [] rep = "samples"      -> {"funvals", "parameters", "fwd"}
+                   [] rep = "samples_fun"  -> {"parameters", "fwd"}
+                   [] OTHER                -> {"fwd", "grad"}
+
+\* the lean lattice: model kind x domain x range geometry, and the representations exercised in the quick tier
+X12LeanList == <<
+    [mk |-> "lin_dense",  d |-> "step",     r |-> "cont1d", reps |-> {"arr_par", "arr_fun", "nd_par", "samples", "samples_fun"}],
+    [mk |-> "gen_grad",   d |-> "ugradtri", r |-> "cont1d", reps |-> {"arr_par", "arr_fun", "nd_par", "nd_fun"}],
+    [mk |-> "gen_nograd", d |-> "linexp",   r |-> "step",   reps |-> {"arr_par", "arr_fun", "samples"}],
+    [mk |-> "gen_jac",    d |-> "mapped",   r |-> "mapped", reps |-> {"arr_par", "samples", "nd_fun"}],
+    [mk |-> "lin_func",   d |-> "imgF",     r |-> "imgC",   reps |-> {"arr_par", "arr_fun"}],
+    [mk |-> "pde_jac",    d |-> "cont1d",   r |-> "cont1d", reps |-> {"arr_par", "nd_par"}],
+    [mk |-> "gen_grad",   d |-> "ugradlin", r |-> "cont1d", reps |-> {"arr_par", "samples_fun"}] >>
+X12K(mk, dg, rg, fi) == [mk |-> mk, dg |-> dg, rg |-> rg, fi |-> fi]
+X12LeanK(e) == X12K(e.mk, X12D(e.d), X12R(e.r), 1)
+X12WideKs == { k \in ({ X12K(mk, X12D(d), X12R("cont1d"), 1) : mk \in GenKinds,
+                         d \in {"step", "stepbal", "linexp", "ugradlin", "imgC", "imgF", "cont2d", "cont1d", "discrete", "mapped",
+                                "ugradtri", "mappednl", "noinv", "ugradnoinv"} }
+                      \cup { X12K(mk, X12D(d), X12R(r), 2) : mk \in GenKinds, d \in {"step", "ugradtri"}, r \in {"mapped", "step", "imgC"} }) :
+                 C12Valid(k) }
+X12Entries ==
+    CASE X12Mode = "quick" -> { [k |-> X12LeanK(X12LeanList[i]), reps |-> X12LeanList[i].reps] : i \in 1..Len(X12LeanList) }
+      [] X12Mode = "full"  -> { [k |-> X12LeanK(X12LeanList[i]), reps |-> X12AllReps(X12LeanK(X12LeanList[i]))] : i \in 1..Len(X12LeanList) }
+      [] X12Mode = "deep"  -> { [k |-> X12LeanK(X12LeanList[i]), reps |-> X12LeanList[i].reps \cap {"arr_par", "arr_fun", "samples"}] : i \in 1..3 }
+      [] X12Mode = "wide"  -> { [k |-> k, reps |-> X12AllReps(k)] : k \in X12WideKs }
+
+\* --- in-place routes ------------------------------------------------------------------------------------------------
+\* mechanisms applied to the array object itself ...
+X12DirectOps == CASE X12Mode = "wide" -> {"imul2", "iadd", "idiv2", "ipow2", "uf_neg", "uf_clip", "set_all", "set_i", "set_slice", "fill",
+                                          "sort", "put", "place", "putmask", "flat_i"}                \* one mechanism per effect
+                  [] X12Mode = "deep" -> {"imul2", "iadd", "uf_neg", "set_all", "set_i", "fill", "sort", "copyto"}
+                  [] OTHER -> {"imul2", "iadd", "isub", "idiv2", "ipow2", "uf_mul", "uf_neg", "uf_add", "uf_clip", "set_all", "set_i",
+                               "set_slice", "fill", "sort", "put", "np_put", "copyto", "place", "putmask", "flat_i", "itemset", "real", "setfield"}
+\* ... their exact effect on the content ...
+X12Eff(op) == CASE op \in {"imul2", "uf_mul"} -> "mul2"
+                [] op \in {"iadd", "uf_add"}  -> "add"
+                [] op = "isub"                -> "sub"
+                [] op = "idiv2"               -> "div2"
+                [] op = "ipow2"               -> "pow2"
+                [] op = "uf_neg"              -> "neg"
+                [] op = "uf_clip"             -> "clip"
+                [] op \in {"set_all", "copyto", "real", "setfield", "rebind"} -> "set_all"
+                [] op \in {"set_i", "itemset"} -> "set_i"
+                [] op \in {"put", "np_put"}   -> "put"
+                [] OTHER                      -> op
+\* ... which of them are a setitem on the object itself (what the deviation's cache is emptied by) ...
+X12SetItemOps == {"set_all", "set_i", "set_slice"}
+\* ... and the views of the buffer an edit can go through
+X12Views(rep) == IF X12IsArr(rep) THEN (IF X12Mode = "deep" THEN {"view_nd", "base"} ELSE {"view", "view_nd", "asarray", "to_numpy", "base", "slice"})
+                 ELSE (IF X12Mode = "deep" THEN {"view"} ELSE {"view", "asarray", "slice"})
+X12ViewOps == IF X12Mode \in {"wide", "deep"} THEN {"imul2", "set_all"} ELSE {"set_all", "imul2", "set_i"}
+\* Samples: the array s.samples (parameters x samples), through the attribute, through the array given to the constructor, a view
+X12SampOps == IF X12Mode = "deep" THEN {"imul2", "col_imul2", "set_col", "rebind"}
+              ELSE {"imul2", "col_imul2", "set_all", "set_col", "set_elem", "fill", "uf_neg", "iadd", "copyto", "rebind"}
+X12SampViews == {"orig", "view"}
+X12SampViewOps == IF X12Mode = "deep" THEN {"imul2"} ELSE {"imul2", "set_col", "set_all"}
+X12Routes(rep) == IF X12IsSamples(rep)
+                  THEN { <<"attr", op>> : op \in X12SampOps } \cup (X12SampViews \X X12SampViewOps)
+                  ELSE { <<"x", op>> : op \in X12DirectOps } \cup (X12Views(rep) \X X12ViewOps)
+
+\* data of the edits (integer lattice vectors, constants outside the range -3..3 of the start contents)
+X12Delta(n) == VR(IVecB(n, 2))
+X12New(n)   == VR(IVecA(n, 3))
+X12New2(n)  == VR(IVecB(n, 4))
+X12C == [set |-> 5, put_first |-> 7, put_last |-> -4, place |-> 5, mask |-> 4, flat |-> 6, clip_lo |-> -1, clip_hi |-> 1]
+X12Rank(x, j) == Cardinality({l \in 1..Len(x) : RLt(x[l], x[j])}) + Cardinality({l \in 1..(j - 1) : x[l] = x[j]}) + 1
+X12Sort(x) == F([i \in 1..Len(x) |-> x[CHOOSE j \in 1..Len(x) : X12Rank(x, j) = i]])
+\* effect on ONE column x; q = length of the rows of the array (the whole length for a 1-D array)
+X12EffCol(eff, x, q) ==
+    LET n == Len(x) IN
+    CASE eff = "mul2"      -> VScale(Two, x)
+      [] eff = "add"       -> VAdd(x, X12Delta(n))
+      [] eff = "sub"       -> VSub(x, X12Delta(n))
+      [] eff = "div2"      -> VScale(Half, x)
+      [] eff = "pow2"      -> F([i \in 1..n |-> RSq(x[i])])
+      [] eff = "neg"       -> F([i \in 1..n |-> RNeg(x[i])])
+      [] eff = "clip"      -> F([i \in 1..n |-> RMax(R(X12C.clip_lo), RMin(R(X12C.clip_hi), x[i]))])                  \* np.clip(x, -1, 1, out=x)
+      [] eff = "set_all"   -> X12New(n)                                                         \* x[...] = v
+      [] eff = "set_i"     -> F([i \in 1..n |-> IF i = 2 THEN R(X12C.set) ELSE x[i]])          \* x[<index of flat position 1>] = 5
+      [] eff = "set_slice" -> F([i \in 1..n |-> IF (IF q = n THEN i \in {2, 3} ELSE i <= q) THEN R(X12C.set) ELSE x[i]])   \* x[1:3] = 5 | x[0:1] = 5
+      [] eff = "fill"      -> F([i \in 1..n |-> R(X12C.set)])
+      [] eff = "sort"      -> F([i \in 1..n |-> LET b == (i - 1) \div q                          \* x.sort(): along the last axis
+                                                    row == [j \in 1..q |-> x[(b * q) + j]]
+                                                IN X12Sort(row)[i - (b * q)]])
+      [] eff = "put"       -> F([i \in 1..n |-> IF i = 1 THEN R(X12C.put_first) ELSE IF i = n THEN R(X12C.put_last) ELSE x[i]])   \* x.put([0, n-1], [7, -4])
+      [] eff = "place"     -> F([i \in 1..n |-> IF RLt(Zero, x[i]) THEN R(X12C.place) ELSE x[i]])        \* np.place(x, x > 0, [5])
+      [] eff = "putmask"   -> F([i \in 1..n |-> IF RLt(x[i], Zero) THEN R(X12C.mask) ELSE x[i]])        \* np.putmask(x, x < 0, 4)
+      [] eff = "flat_i"    -> F([i \in 1..n |-> IF i = n - 1 THEN R(X12C.flat) ELSE x[i]])              \* x.flat[n-2] = 6
+\* effect on the two columns of a Samples object
+X12EffSamples(op, cs) ==
+    LET n == Len(cs[1]) IN
+    CASE op = "col_imul2" -> << cs[1], VScale(Two, cs[2]) >>                                    \* s.samples[:, 1] *= 2
+      [] op = "set_col"   -> << X12New(n), cs[2] >>                                             \* s.samples[:, 0] = v
+      [] op = "set_elem"  -> << cs[1], F([i \in 1..n |-> IF i = 2 THEN R(X12C.set) ELSE cs[2][i]]) >>  \* s.samples[1, 1] = 5
+      [] op \in {"set_all", "copyto", "rebind"} -> << X12New(n), X12New2(n) >>
+      [] op = "iadd"      -> << VAdd(cs[1], X12Delta(n)), VAdd(cs[2], X12Delta(n)) >>           \* s.samples += d[:, None]
+      [] OTHER            -> [j \in 1..2 |-> X12EffCol(X12Eff(op), cs[j], n)]                   \* imul2, fill, uf_neg
+X12Q(s) == IF X12IsPar(s.rep) \/ VecFun(s.k.dg) THEN Len(s.cols[1]) ELSE s.k.dg.q
+X12Small(cs) == \A j \in 1..Len(cs) : \A i \in 1..Len(cs[j]) : RLe(RAbs(cs[j][i]), R(3))
+X12DenLe(cs, m) == \A j \in 1..Len(cs) : \A i \in 1..Len(cs[j]) : cs[j][i][2] <= m
+\* only edits whose result stays exactly representable (and small enough for the exact arithmetic of the specification)
+X12Enabled(s, rt) == /\ (rt[2] = "ipow2" => (X12Small(s.cols) /\ X12DenLe(s.cols, 4)))
+                     /\ (rt[2] = "idiv2" => X12DenLe(s.cols, 8))
+X12After(s, via, op) == IF via = "orig" /\ ~s.bound THEN s.cols                      \* the array given to the constructor is no longer held
+                        ELSE IF X12IsSamples(s.rep) THEN X12EffSamples(op, s.cols)
+                        ELSE << X12EffCol(X12Eff(op), s.cols[1], X12Q(s)) >>
+
+\* --- exact value of every Use ------------------------------------------------------------------------------------------
+X12FV(k, u) == IF IsPde(k.mk) THEN MSolve(PdeA(u), PdeB(k.fi))
+               ELSE LET A == MR(CoreF(k.fi, k.rg.n, k.dg.n))
+                        B == IF IsLin(k.mk) THEN MZero(k.rg.n, k.dg.n) ELSE MR(CoreB(k.fi, k.rg.n, k.dg.n))
+                    IN VAdd(MV(A, u), MV(B, F([i \in 1..Len(u) |-> RSq(u[i])])))
+X12JFT(k, u, d) == IF IsPde(k.mk)
+                   THEN LET Ai == MInv(PdeA(u))
+                            s  == MV(Ai, PdeB(k.fi))
+                            z  == MV(MT(Ai), d)
+                        IN F([p \in 1..6 |-> RNeg(RMul(z[PdePos[p][1]], s[PdePos[p][2]]))])
+                   ELSE LET A == MR(CoreF(k.fi, k.rg.n, k.dg.n))
+                            B == IF IsLin(k.mk) THEN MZero(k.rg.n, k.dg.n) ELSE MR(CoreB(k.fi, k.rg.n, k.dg.n))
+                            Btd == MV(MT(B), d)
+                        IN VAdd(MV(MT(A), d), F([j \in 1..Len(u) |-> RMul(RMul(Two, u[j]), Btd[j])]))
+X12Dir(k) == VR(IVecA(k.rg.k, k.fi + 2))                                         \* direction of the gradient (range parameters)
+X12Refused(k) == k.mk = "gen_nograd" \/ ~IdType(k.rg) \/ (~IdType(k.dg) /\ ~HasGrad(k.dg))
+\* the parameters of a function-typed content are defined when the geometry has fun2par; its gradient is asserted where the
+\* function values determine the parameters (par2fun bijective) and the par -> par map is differentiable
+X12ParDefined(k, par)   == par \/ HasF2P(k.dg)
+X12GradAsserted(k, par) == F2PLinear(k.rg) /\ (par \/ (k.dg.k = k.dg.n /\ HasF2P(k.dg)))
+X12Val(k, par, kind, x) ==
+    LET u == IF par THEN P2FV(k.dg, x) ELSE x                                    \* function values handed to the core operator
+        p == IF par THEN x ELSE IF HasF2P(k.dg) THEN F2PV(k.dg, x) ELSE <<>>
+    IN CASE kind = "funvals"    -> u
+         [] kind = "parameters" -> p
+         [] kind = "fwd"        -> F2PV(k.rg, X12FV(k, u))                       \* H+( F( G v ) )
+         [] kind = "grad"       -> IF X12GradAsserted(k, par)
+                                   THEN JGT(k.dg, p, X12JFT(k, u, MV(MT(GpM(k.rg)), X12Dir(k))))
+                                   ELSE <<>>
+X12Vals(k, par, kind, cs) == [j \in 1..Len(cs) |-> X12Val(k, par, kind, cs[j])]
+
+\* --- the state machine ---------------------------------------------------------------------------------------------------
+X12Cols0(k, rep) ==
+    LET v1 == VR(IVecB(k.dg.k, k.fi))           \* (the inputs vs[2], vs[1] of C12Eval; first entry # 0)
+        v2 == VR(IVecA(k.dg.k, k.fi))
+        cs == IF X12IsSamples(rep) THEN <<v1, v2>> ELSE <<v1>>
+    IN IF X12IsPar(rep) THEN cs ELSE [j \in 1..Len(cs) |-> P2FV(k.dg, cs[j])]
+X12Log(s2, st) == [s2 EXCEPT !.hist = Append(@, st)]
+X12Converting == {"funvals", "fwd", "grad"}                                     \* Uses that need the function values of the input
+X12Use(s, kind) ==
+    LET basis == IF "FunvalsCachedAcrossInPlaceEdit" \in Dev /\ s.rep = "arr_par" /\ kind \in X12Converting /\ s.cache # <<>> THEN s.cache
+                 ELSE IF "ModelMemoByInputIdentity" \in Dev /\ kind = "fwd" /\ s.memo # <<>> THEN s.memo
+                 ELSE s.cols
+        cols2 == IF "UseConvertsInPlace" \in Dev /\ kind = "fwd" /\ X12IsPar(s.rep) /\ s.k.dg.k = s.k.dg.n
+                 THEN [j \in 1..Len(s.cols) |-> P2FV(s.k.dg, s.cols[j])] ELSE s.cols
+        s2 == [s EXCEPT !.cols = cols2,
+                        !.cache = IF s.cache = <<>> /\ kind \in X12Converting THEN s.cols ELSE s.cache,
+                        !.memo  = IF s.memo = <<>> /\ kind = "fwd" THEN s.cols ELSE s.memo]
+    IN X12Log(s2, [a |-> "U", kind |-> kind, via |-> "", op |-> "", cols |-> cols2, basis |-> basis])
+X12Edit(s, via, op) ==
+    LET s2 == [s EXCEPT !.cols = X12After(s, via, op),
+                        !.cache = IF via = "x" /\ op \in X12SetItemOps THEN <<>> ELSE s.cache,
+                        !.bound = s.bound /\ op # "rebind"]
+    IN X12Log(s2, [a |-> IF via \in {"x", "attr"} THEN "E" ELSE "V", kind |-> "", via |-> via, op |-> op, cols |-> s2.cols, basis |-> <<>>])
+
+X12Start(e) == { [part |-> "X12", k |-> e.k, rep |-> rep, cols0 |-> X12Cols0(e.k, rep), cols |-> X12Cols0(e.k, rep),
+                  cache |-> <<>>, memo |-> <<>>, bound |-> TRUE, hist |-> <<>>] : rep \in e.reps }
+X12ValState(s, j) == [part |-> "X12val", k |-> s.k, par |-> X12IsPar(s.rep), col |-> s.cols[j]]
+
+InitX12 == c \in { [part |-> "X12seed", e |-> e] : e \in X12Entries }
+NextX12 ==
+    \/ /\ c.part = "X12seed"
+       /\ c' \in (X12Start(c.e) \cup { [part |-> "S12cfg", mk |-> c.e.k.mk, dg |-> c.e.k.dg, rg |-> c.e.k.rg, fi |-> c.e.k.fi] })
+    \/ /\ c.part = "X12" /\ Len(c.hist) < S12Depth
+       /\ IF Len(c.hist) % 2 = 0
+          THEN \E kind \in X12Kinds(c.rep) : c' = X12Use(c, kind)
+          ELSE \E rt \in X12Routes(c.rep) : X12Enabled(c, rt) /\ c' = X12Edit(c, rt[1], rt[2])
+    \/ /\ c.part = "X12" /\ Emit
+       /\ \E j \in 1..Len(c.cols) : c' = X12ValState(c, j)
+
+\* ---------------------------------------------------------------------------
+X12Last == c.hist[Len(c.hist)]
+X12Prev == IF Len(c.hist) = 1 THEN c.cols0 ELSE c.hist[Len(c.hist) - 1].cols
+\* the value a Use answers with is the exact value for the content the object has at that moment
+\* (every prefix of a behaviour is a state: it suffices to look at the last step)
+X12SeesCurrent == (c.part = "X12" /\ c.hist # <<>> /\ X12Last.a = "U") =>
+    \/ X12Last.basis = X12Last.cols
+    \/ X12Vals(c.k, X12IsPar(c.rep), X12Last.kind, X12Last.basis) = X12Vals(c.k, X12IsPar(c.rep), X12Last.kind, X12Last.cols)
+\* a Use leaves the content of the caller's object alone
+X12UseKeepsContent == (c.part = "X12" /\ c.hist # <<>> /\ X12Last.a = "U") => X12Last.cols = X12Prev
+\* the content stays exactly representable: dyadic rationals with denominator <= 16
+X12Exact == c.part = "X12" => \A j \in 1..Len(c.cols) : \A i \in 1..Len(c.cols[j]) : c.cols[j][i][2] \in {1, 2, 4, 8, 16}
+
+X12Emit == Emit =>
+    CASE c.part = "S12cfg" -> C12Eval(c, "emit")
+      [] c.part = "X12seed" ->
+            PrintT("@@CASE " \o ToJson([kind |-> "x12data", consts |-> X12C, depth |-> S12Depth, mode |-> X12Mode,
+                                        vecs |-> [n \in 1..6 |-> [delta |-> IVecB(n, 2), new |-> IVecA(n, 3), new2 |-> IVecB(n, 4)]]]) \o " @@END")
+      [] c.part = "X12" /\ Len(c.hist) = S12Depth ->
+            PrintT("@@CASE " \o ToJson([kind |-> "x12", mk |-> c.k.mk, dg |-> c.k.dg, rg |-> c.k.rg, fi |-> c.k.fi, rep |-> c.rep,
+                                        cols0 |-> c.cols0, steps |-> c.hist]) \o " @@END")
+      [] c.part = "X12val" ->
+            PrintT("@@CASE " \o ToJson([kind |-> "x12val", mk |-> c.k.mk, dg |-> c.k.dg, rg |-> c.k.rg, fi |-> c.k.fi, par |-> c.par,
+                                        col |-> c.col,
+                                        funvals |-> X12Val(c.k, c.par, "funvals", c.col),
+                                        parameters |-> X12Val(c.k, c.par, "parameters", c.col),
+                                        par_defined |-> X12ParDefined(c.k, c.par),
+                                        fwd |-> X12Val(c.k, c.par, "fwd", c.col),
+                                        grad |-> X12Val(c.k, c.par, "grad", c.col),
+                                        grad_asserted |-> X12GradAsserted(c.k, c.par),
+                                        refused |-> X12Refused(c.k), dir |-> X12Dir(c.k)]) \o " @@END")
+      [] OTHER -> TRUE
 =============================================================================
